@@ -23,7 +23,7 @@ META = dict(
                "and the JSON bridge. Identities are well-formed 'Name <email>'.",
 )
 
-DOMAINS = {"quick": "zones {0, -0000, -0530}^2, 4 extra-header sequences, and (times differ, gpgsig, 2 mergetags, "
+DOMAINS = {"quick": "zones {0, -0000, -0530}^2, 4 extra-header sequences, times equal?, and (gpgsig, 2 mergetags, "
                     "2 parents) all on or all off",
            "full": "zones {0, -0000, +0100, -0530}^2, 8 extra-header sequences, times equal?, gpgsig?, "
                    "mergetags = parents in 0..2"}
